@@ -43,7 +43,19 @@ variable.  A dictionary referenced inside a longer string (in the arguments a wo
 depth, in command.arguments of a component, or because a dictionary is supplied -- entrypoint arguments, override,
 step arguments -- for a parameter that is interpolated further down) makes the namespace invalid: mutant classes
 dict_spliced_args / dict_spliced_component / dict_for_text; the model's subst_d (coq/Dsl/Model.v) and the
-specification's dict_ok (coq/Dsl/Spec.v) carry the rule."""
+specification's dict_ok (coq/Dsl/Spec.v) carry the rule.
+
+Places WITHOUT an enclosing parameter scope, and lightweight_validate: the arguments of the entry instance
+(entrypoint.execute[0].args, override_entrypoint_args, the user variables DSLExperimentConfiguration turns into an
+override) have no parent scope, so ANY %(name)s in them -- an unknown name, a parameter of the entry template itself,
+a parameter of a workflow further down; alone, nested in text, twice, extended like a reference -- makes the
+namespace invalid (mutant classes entry_param_ref / override_param_ref / uservar_param_ref; sibling one level down:
+noparam_parent_ref, a step of a workflow that declares NO parameter refers to one).  lightweight_validate(namespace,
+override_entrypoint_args) is a fourth entry point (mode ('lw',)): on the corpus, on a share of the valid namespaces
+and of the mutants of every class and on the malformed documents it must answer with nothing or with a
+DSLInvalidError that names locations, must not reject a valid namespace, must not accept a STRUCTURALLY invalid one
+(Invalid.deep False: decided without evaluating values), and is compared with coq/Dsl/Load.v [lightweight] (the
+traversal alone) by check_lw."""
 import json
 import os
 import re
@@ -259,6 +271,49 @@ def drive(doc, override=None):
         signal.alarm(0)
 
 
+def drive_lw(doc, override=None):
+    """lightweight_validate(Namespace(**doc), override_entrypoint_args=override): the validation the tools run on a
+    namespace they do not compile -> {'kind': 'lwok'} (returned: nothing reported) / 'dsl' / 'exc'"""
+    import experiment.model.frontends.dsl as D
+    import experiment.model.errors as E
+    signal.signal(signal.SIGALRM, _alarm)
+    signal.alarm(20)
+    try:
+        try:
+            nsp = D.Namespace(**doc)
+            if override is None:
+                D.lightweight_validate(nsp)
+            else:
+                D.lightweight_validate(nsp, override_entrypoint_args=dict(override))
+            return {'kind': 'lwok'}
+        except E.DSLInvalidError as e:
+            return _rejection(e)
+        except _Hang as e:
+            return _rejection(e)
+        except Exception as e:  # noqa
+            return {'kind': 'exc', 'type': type(e).__name__}
+    finally:
+        signal.alarm(0)
+
+
+def predicate_lw(ns, impl):
+    """the rejection half of the property for lightweight_validate: never another exception, an error names its
+    locations, a valid namespace is not rejected, a STRUCTURALLY invalid one (Invalid.deep False) is not accepted"""
+    if impl['kind'] == 'exc':
+        return 'lightweight_validate raised %s instead of DSLInvalidError' % impl.get('type')
+    if impl['kind'] == 'dsl' and (not impl['locs'] or not all(impl['locs'])):
+        return 'lightweight_validate rejected the namespace without naming a location'
+    try:
+        spec(ns)
+    except Invalid as e:
+        if not e.deep and impl['kind'] != 'dsl':
+            return 'lightweight_validate accepts a structurally invalid namespace (%s)' % e
+        return None
+    if impl['kind'] == 'dsl':
+        return 'lightweight_validate rejects a valid namespace: %s' % impl['locs'][:3]
+    return None
+
+
 _SCRATCH = []
 
 
@@ -309,7 +364,12 @@ def drive_conf(doc, uservars, validate, text=None):
 
 # ------------------------------------------------------------------ independent specification
 class Invalid(Exception):
-    pass
+    """deep=False: a STRUCTURAL fault, visible without evaluating any value (templates, steps, arguments supplied /
+    missing, names of the parameters a value refers to) -- what lightweight_validate must already report;
+    deep=True: decided by the VALUES (kinds, reference shapes, producers)"""
+    def __init__(self, msg, deep=False):
+        Exception.__init__(self, msg)
+        self.deep = deep
 
 
 _NAME = re.compile(r'(stage(?P<stage>([0-9]+))\.)?(?P<name>([A-Za-z0-9._-]*[A-Za-z_-]+))')
@@ -341,7 +401,7 @@ def spec(ns):
         if not (len(v) == 1 and v[0][0] == 'P'):
             for t in v:
                 if t[0] in ('P', 'PO') and not (t[0] == 'P' and t[1] in keep) and is_dict_value(env.get(t[1])):
-                    raise Invalid('dictionary parameter %s spliced into a longer string' % t[1])
+                    raise Invalid('dictionary parameter %s spliced into a longer string' % t[1], deep=True)
         out = []
         for t in v:
             if t[0] in ('L', 'V'):
@@ -355,7 +415,7 @@ def spec(ns):
                     out.extend(env[t[1]])
             elif t[0] == 'O':
                 if siblings is None or not t[1] or t[1][0] not in siblings:
-                    raise Invalid('reference does not start at a sibling step')
+                    raise Invalid('reference does not start at a sibling step', deep=True)
                 out.append(('O', tuple(loc) + t[1], t[2]))
             else:
                 _, x, path, m = t
@@ -363,10 +423,10 @@ def spec(ns):
                     raise Invalid('unknown parameter %s' % x)
                 b = env[x]
                 if not (len(b) == 1 and b[0][0] == 'O' and b[0][2] is None):
-                    raise Invalid('parameter %s is extended like a reference but is not one' % x)
+                    raise Invalid('parameter %s is extended like a reference but is not one' % x, deep=True)
                 out.append(('O', b[0][1] + path, m))
         if len(out) > 1 and any(t[0] == 'O' and t[2] is None for t in out):
-            raise Invalid('partial reference mixed with text')
+            raise Invalid('partial reference mixed with text', deep=True)
         return out
 
     def inst(loc, tname, supplied, env_outer, loc_outer, siblings, chain):
@@ -408,25 +468,25 @@ def spec(ns):
             if len(l) <= len(path) and tuple(path[:len(l)]) == l and (best is None or len(l) > len(best)):
                 best = l
         if best is None:
-            raise Invalid('reference %s has no producer' % (path,))
+            raise Invalid('reference %s has no producer' % (path,), deep=True)
         return best
     res = {}
     for loc, (c, env) in instances.items():
         if _NAME.fullmatch(loc[-1]) is None:
-            raise Invalid('step name is not a component name')
+            raise Invalid('step name is not a component name', deep=True)
         args = ev(c['args'], env, None, None, keep=set(c['vars']))
         refs = set()
         complete = set()
         for t in args:
             if t[0] == 'O':
                 if t[2] is None:
-                    raise Invalid('partial reference in arguments')
+                    raise Invalid('partial reference in arguments', deep=True)
                 complete.add(t[1])
         for t in list(args) + [t for v in env.values() for t in v]:
             if t[0] == 'O':
                 if t[2] is None:
                     if t[1] not in complete:
-                        raise Invalid('partial reference never completed')
+                        raise Invalid('partial reference never completed', deep=True)
                     continue
                 pr = producer(t[1])
                 refs.add((pr, t[1][len(pr):], t[2]))
@@ -434,7 +494,7 @@ def spec(ns):
         if c.get('envp'):
             ev_ = env.get(c['envp'])
             if not (ev_ is not None and len(ev_) == 1 and ev_[0][0] == 'V' and isinstance(ev_[0][1], dict)):
-                raise Invalid('the environment of a component is not a dictionary')
+                raise Invalid('the environment of a component is not a dictionary', deep=True)
             envd = ev_[0][1]
         res[loc] = (args, refs, producer, envd)
     return res
@@ -582,6 +642,14 @@ def c_impl(impl):
     if impl['kind'] == 'dsl':
         return '(IErr %s)' % clist(impl['locs'], c_loc)
     return '(IExc %s)' % cstr(impl['type'])
+
+
+def c_lw_impl(impl):
+    if impl['kind'] == 'lwok':
+        return 'LIOk'
+    if impl['kind'] == 'dsl':
+        return '(LIErr %s)' % clist(impl['locs'], c_loc)
+    return '(LIExc %s)' % cstr(impl['type'])
 
 
 # ------------------------------------------------------------------ generator
@@ -953,7 +1021,26 @@ KINDS = ['unknown_template', 'cycle', 'missing_arg', 'unknown_arg', 'unknown_par
          'override_unknown', 'entry_missing_arg',
          # value KINDS in string context: a dictionary spliced into a longer string (in the arguments a workflow passes
          # to a step / in a field of a component), a dictionary supplied where the text is interpolated further down
-         'dict_spliced_args', 'dict_spliced_component', 'dict_for_text']
+         'dict_spliced_args', 'dict_spliced_component', 'dict_for_text',
+         # parameter references in places that have NO enclosing parameter scope: the arguments of the entry instance
+         # (entrypoint.execute[0].args / override_entrypoint_args; user variables: see _conf_mode(fault='ref'))
+         'entry_param_ref', 'override_param_ref',
+         # ... and the sibling one level down: a step refers to a parameter although its parent workflow has NONE
+         'noparam_parent_ref']
+
+
+def scopeless_value(ns, rng, dict_param=False):
+    """a value that refers to a parameter: an unknown name, a parameter of the entry template ITSELF, a parameter of
+    a workflow further down; alone, inside more text, twice, or extended like a reference"""
+    own = [p[0] for t in ns['wfs'] + ns['comps'] if t['name'] == ns['entry'] for p in t['params']]
+    deeper = sorted(set(p[0] for w in ns['wfs'] if w['name'] != ns['entry'] for p in w['params']))
+    pools = [['nosuchparam', 'user', 'p.q', 'salutation']] + ([own] if own else []) + ([deeper] if deeper else [])
+    x = rng.choice(rng.choice(pools))
+    if dict_param:
+        return [P(x)]
+    return rng.choice([[P(x)], [L('x '), P(x)], [P(x), L(' tail')], [L('a '), P(x), L(' b')], [P(x), L(' '), P(x)],
+                       [L('say '), P(x), L(' and '), P(rng.choice(pools[0]))],
+                       [PO(x, ['out.txt'], 'ref')], [L('cat '), PO(x, [], 'output')]])
 
 
 def splice(rng, d, text=None):
@@ -1089,6 +1176,28 @@ def mutate(ns, rng, kind=None):
             w['exec'][ei] = (tg, [a for a in args if a[0] != pn] + [(pn, d)])
         else:
             return None
+    elif kind in ('entry_param_ref', 'override_param_ref'):
+        e = tmap[ns['entry']]
+        if not e['params']:
+            return None
+        pn = rng.choice(e['params'])[0]
+        v = scopeless_value(ns, rng, ns['kinds'].get(ns['entry'], {}).get(pn) == 'dict')
+        if kind == 'entry_param_ref':
+            ns['eargs'] = [a for a in ns['eargs'] if a[0] != pn] + [(pn, v)]
+            if ns['override'] is not None:
+                ns['override'] = [a for a in ns['override'] if a[0] != pn]
+        else:
+            ns['override'] = [a for a in (ns['override'] or []) if a[0] != pn] + [(pn, v)]
+            rng.shuffle(ns['override'])
+    elif kind == 'noparam_parent_ref':
+        cands = [(w2, i) for w2 in rw if not w2['params'] for i, (tg2, _a) in enumerate(w2['exec'])
+                 if [p for p, k in ns['kinds'].get(dict(w2['steps']).get(tg2), {}).items() if k == 'text']]
+        if not cands:
+            return None
+        w2, i = rng.choice(cands)
+        tg2, args2 = w2['exec'][i]
+        pn = rng.choice([p for p, k in ns['kinds'].get(dict(w2['steps'])[tg2], {}).items() if k == 'text'])
+        w2['exec'][i] = (tg2, [a for a in args2 if a[0] != pn] + [(pn, scopeless_value(ns, rng))])
     elif kind == 'entry_ref':
         e = tmap[ns['entry']]
         if not e['params']:
@@ -1232,6 +1341,22 @@ CORPUS = [
                                    _w('nested', [('env', None)], [('run', 'runner')],
                                       [('run', [('environment', [P('env')]), ('message', [L('running with '), P('env')])])])],
                            'comps': [_ce('runner', [('environment', None), ('message', None)], [P('message')], 'environment')]}),
+    # parameter references where NO parameter scope encloses them: the arguments of the entry instance refer to a
+    # parameter of the entry template itself (entrypoint.execute[0].args) / to an unknown name nested in text (override);
+    # control: one level down, a step of a workflow that has NO parameters refers to one
+    ('entry_args_ref_own_param', {'entry': 'main', 'eargs': [('greeting', [L('hello '), P('name')])], 'sp': 0,
+                                  'wfs': [_w('main', [('greeting', None), ('name', [L('world')])], [('say', 'echo')],
+                                             [('say', [('message', [P('greeting'), L(' '), P('name')])])])],
+                                  'comps': [_c('echo', [('message', None)], [P('message')])]}),
+    ('override_ref_unknown', {'entry': 'main', 'eargs': [('greeting', [L('hello')])], 'sp': 0,
+                              'override': [('name', [L('dear '), P('user'), L('!')])],
+                              'wfs': [_w('main', [('greeting', None), ('name', [L('world')])], [('say', 'echo')],
+                                         [('say', [('message', [P('greeting'), L(' '), P('name')])])])],
+                              'comps': [_c('echo', [('message', None)], [P('message')])]}),
+    ('noparam_parent_ref', {'entry': 'main', 'eargs': [], 'sp': 0,
+                            'wfs': [_w('main', [], [('inner', 'nested')], [('inner', [])]),
+                                    _w('nested', [], [('say', 'echo')], [('say', [('message', [P('greeting')])])])],
+                            'comps': [_c('echo', [('message', None)], [P('message')])]}),
     # F6e (open): the only component step carries stage 1 -- compiles and validates, cannot be loaded
     ('F6e_stage_gap', {'entry': 'main', 'eargs': [], 'sp': 0,
                        'wfs': [_w('main', [], [('stage1.b', 'c')], [('stage1.b', [])])], 'comps': [_c('c', [], [L('hi')])]}),
@@ -1263,14 +1388,18 @@ def _explore(ctx, cases):
     files, else the (name, value) pairs of the global section of one variables file)"""
     terms, sterms, kept, s_kept = [], [], [], []
     ov_terms, ov_kept, ld_terms, ld_kept, gl_terms, gl_kept = [], [], [], [], [], []
+    lw_terms, lw_kept = [], []
     for case in cases:
         label, ns = case[0], case[1]
         mode = case[2] if len(case) > 2 else None
         doc = to_doc(ns)
-        if mode is None:
+        lw = mode is not None and mode[0] == 'lw'
+        if mode is None or lw:
             ov = ns.get('override')
-            impl = drive(doc, None if ov is None else [(n, render_value(v)) for n, v in ov])
+            impl = (drive_lw if lw else drive)(doc, None if ov is None else [(n, render_value(v)) for n, v in ov])
             eff = effective(ns)
+            if lw:
+                ctx.count('through lightweight_validate%s' % ('' if ov is None else ' with override_entrypoint_args'))
         else:
             uv = mode[1]
             impl = drive_conf(doc, None if uv is None else {'global': {n: render_value(v) for n, v in uv}}, mode[2])
@@ -1306,17 +1435,21 @@ def _explore(ctx, cases):
         ctx.case(json.dumps([doc, ns.get('override'), mode], sort_keys=True, default=str),
                  (valid and ninst >= 2 and nrefs >= 1) or not valid)
         ctx.sample({'doc': doc, 'impl': impl}, limit=3)
-        why = predicate(eff, impl)
+        why = predicate_lw(eff, impl) if lw else predicate(eff, impl)
         if why == 'INCONCLUSIVE':
             ctx.count('predicate search budget exhausted (correspondence only)')
             why = None
         if why is not None:
             classes = []
-            if mode is not None and valid and stage_gap(want) and impl['kind'] == 'exc':
+            if mode is not None and not lw and valid and stage_gap(want) and impl['kind'] == 'exc':
                 classes.append('stage_indexes_not_contiguous')
             ctx.fail({'label': label, 'ns': ns, 'mode': mode, 'doc': doc, 'impl': impl}, why, classes)
             if classes:
                 continue    # the loader's answer is the finding; the compiler itself is compared on the direct cases
+        if lw:
+            lw_terms.append('(Some %s, %s, %s)' % (c_ns(ns), copt(ns.get('override'), c_args), c_lw_impl(impl)))
+            lw_kept.append((label, ns, doc, impl, mode))
+            continue
         if mode is None and ns.get('override') is None:
             terms.append(cpair(c_ns(ns), c_impl(impl)))
             kept.append((label, ns, doc, impl))
@@ -1342,6 +1475,8 @@ def _explore(ctx, cases):
              'compile_ov (coq/Dsl/Load.v) = namespace_to_flowir(namespace, override_entrypoint_args)'),
             (ld_terms, ld_kept, 'check_load', 'load',
              'load (coq/Dsl/Load.v) = DSLExperimentConfiguration (variable files, validate) on components/references/arguments/error locations'),
+            (lw_terms, lw_kept, 'check_lw', 'lightweight',
+             'lightweight (coq/Dsl/Load.v: the traversal alone) = lightweight_validate(namespace, override_entrypoint_args) on accept / error locations'),
             (gl_terms, gl_kept, 'check_globals', 'globals',
              'globals (entry_kargs ...) (coq/Dsl/Load.v) = the global variables of the compiled FlowIR (names, kinds, values), all acceptable to the validator')):
         if not tms:
@@ -1400,10 +1535,24 @@ def _explore_docs(ctx):
     """the rejection half of the property at the level of documents: every entry point must answer a malformed
     document with a DSLInvalidError (possibly wrapped) that names at least one non-empty location"""
     ov_terms, ld_terms, ov_kept, ld_kept = [], [], [], []
+    lw_terms, lw_kept = [], []
     for label, doc, model in _doc_faults():
         runs = []
+        lw_impl = None
         if model != 'schema':
             runs.append((None, drive(doc)))     # Namespace(**doc) itself is the schema layer: direct only when it parses
+            # lightweight_validate "can deal with Namespaces which do not have an entrypoint or have an entrypoint
+            # with incomplete information": accept, or DSLInvalidError with locations -- never another exception
+            lw_impl = drive_lw(doc)
+            ctx.count('invalid:document:' + label + ' (lightweight_validate)')
+            ctx.case(json.dumps(['document', label, doc, ['lw']], sort_keys=True, default=str), True)
+            if lw_impl['kind'] == 'exc' or (lw_impl['kind'] == 'dsl' and (not lw_impl['locs'] or not all(lw_impl['locs']))):
+                ctx.fail({'label': 'document:' + label, 'doc': doc, 'mode': ['lw'], 'impl': lw_impl},
+                         'lightweight_validate answers a malformed document (%s) with %s' % (label, lw_impl.get('type', 'no location')),
+                         [model.split(':')[1]] if model.startswith('finding:') else [])
+            if model == 'none':
+                lw_terms.append('(@None ns, @None (list (string * value)), %s)' % c_lw_impl(lw_impl))
+                lw_kept.append((label, doc, ['lw'], lw_impl))
         for uv in (None, [], [('zz', [V(1)])], [('producer', [L('x')])]):
             for validate in (True, False):
                 r = drive_conf(doc, None if uv is None else {'global': {n: render_value(v) for n, v in uv}}, validate)
@@ -1426,7 +1575,8 @@ def _explore_docs(ctx):
                 else:
                     ld_terms.append('(%s, @None ns, %s, %s)' % ('true' if mode[2] else 'false', c_uvars(mode[1]), c_impl(impl)))
                     ld_kept.append((label, doc, mode, impl))
-    for tms, kp, fn, nm in ((ov_terms, ov_kept, 'check_ov', 'docov'), (ld_terms, ld_kept, 'check_load', 'docload')):
+    for tms, kp, fn, nm in ((ov_terms, ov_kept, 'check_ov', 'docov'), (ld_terms, ld_kept, 'check_load', 'docload'),
+                            (lw_terms, lw_kept, 'check_lw', 'doclw')):
         for i in ctx.model_mismatches(LOAD_HEADER, tms, fn, chunk=40, name=nm):
             label, doc, mode, impl = kp[i]
             ctx.disagree({'label': 'document:' + label, 'doc': doc, 'mode': mode}, impl, tms[i][-600:],
@@ -1435,12 +1585,17 @@ def _explore_docs(ctx):
 
 def _conf_mode(ns, rng, fault=False):
     """a way of loading the namespace through DSLExperimentConfiguration: user variables (scalars bound to text
-    parameters of the entry template; fault: one unknown name) and the validate flag"""
+    parameters of the entry template; fault True: one unknown name; fault 'ref': one value that refers to a
+    parameter) and the validate flag"""
     texts = [n for n, k in ns.get('kinds', {}).get(ns['entry'], {}).items() if k == 'text']
     uv = None
     if fault or rng.random() < 0.6:
         uv = [(n, [rng.choice([L(rng.choice(WORDS)), V(rng.choice(NUMS)), L('')])]) for n in texts if rng.random() < 0.6]
-        if fault:
+        if fault == 'ref':
+            # a user variable whose value refers to a parameter: the arguments of the entry instance have no scope
+            pn = rng.choice(texts)
+            uv = [a for a in uv if a[0] != pn] + [(pn, scopeless_value(ns, rng))]
+        elif fault:
             uv.append(('zz', [V(1)]))
         rng.shuffle(uv)
     return ('conf', uv, rng.random() < 0.6)
@@ -1450,12 +1605,14 @@ def run(ctx):
     ctx.rule = ('valid namespace with >= 2 component instances and >= 1 producer->consumer edge, or an invalid '
                 '(single-fault) namespace or malformed document; distinct by rendered document, override and entry point')
     rng = ctx.rng
-    n_valid, n_mut, n_conf = (700, 470, 90) if ctx.tier == 'quick' else (5000, 3500, 1000)
+    n_valid, n_mut, n_conf = (700, 520, 90) if ctx.tier == 'quick' else (5000, 3900, 1000)
+    n_lw = 120 if ctx.tier == 'quick' else 900
     try:
         cases = []
         for k, ns in CORPUS:
             ns = _norm(ns)
             cases.append(('corpus:' + k, ns))
+            cases.append(('corpus:' + k, ns, ('lw',)))
             if ns.get('override') is None:
                 for uv in (None, []):
                     for validate in (True, False):
@@ -1465,13 +1622,23 @@ def run(ctx):
             ns = gen_namespace(rng)
             valid.append(ns)
             cases.append(('generated', ns))
+        # the user variable files bind a value that refers to a parameter (fixed witness, every loader mode)
+        base = _norm(dict(CORPUS)['var_collision'])
+        for validate in (True, False):
+            cases.append(('corpus:uservar_ref', base, ('conf', [('greeting', [L('hi '), P('greeting')])], validate)))
+        for ns in valid[:n_lw]:
+            cases.append(('generated', ns, ('lw',)))
         plain = [ns for ns in valid if ns.get('override') is None]
+        with_text = [ns for ns in plain if 'text' in ns.get('kinds', {}).get(ns['entry'], {}).values()]
         for i in range(n_conf):
             ns = rng.choice(plain)
             cases.append(('generated', ns, _conf_mode(ns, rng)))
         for i in range(n_conf // 8):
             ns = rng.choice(plain)
             cases.append(('uservar_unknown:mutant', ns, _conf_mode(ns, rng, fault=True)))
+        for i in range(n_conf // 6):
+            ns = rng.choice(with_text)
+            cases.append(('uservar_param_ref:mutant', ns, _conf_mode(ns, rng, fault='ref')))
         made = 0
         tries = 0
         while made < n_mut and tries < n_mut * 40:
@@ -1483,6 +1650,8 @@ def run(ctx):
             cases.append((m[1] + ':mutant', m[0]))
             if made % 5 == 0 and m[0].get("override") is None and made // 5 < n_conf:
                 cases.append((m[1] + ':mutant', m[0], _conf_mode(m[0], rng)))
+            if made % 3 == 1 or kind in ('entry_param_ref', 'override_param_ref', 'noparam_parent_ref'):
+                cases.append((m[1] + ':mutant', m[0], ('lw',)))
             made += 1
         _explore(ctx, cases)
         _explore_docs(ctx)
@@ -1518,7 +1687,9 @@ def replay(ctx, path):
         print('replay file names no input (proof/correspondence obligation): re-run ./check C06')
         return 2
     mode = c.get('mode')
-    if mode is not None:
+    if mode is not None and mode[0] == 'lw':
+        mode = ('lw',)
+    elif mode is not None:
         mode = ('conf', None if mode[1] is None else [(a[0], [_t(t) for t in a[1]]) for a in mode[1]], mode[2])
     try:
         _explore(ctx, [(c.get('label', 'replay'), _norm(c['ns']))] if mode is None
